@@ -65,6 +65,7 @@ def run(chk):
         s_arr = float(m.score_using_array(model, arrays))
         if not abs(s_arr - score) <= tol:
             chk.fail("score_using_array differs from score on the UBM statistics of the same arrays", ctx)
+        m.enroll_iterations = r.choice([1, 2, 5])          # the array entry point honours the machine's setting like the statistics one
         ea = m.enroll_using_array(arrays[0])
         es = m.enroll([ubm.acc_stats(arrays[0])])
         same = np.allclose(np.asarray(ea[0]), np.asarray(es[0]), rtol=1e-12, atol=1e-14) and np.allclose(np.asarray(ea[-1]), np.asarray(es[-1]), rtol=1e-12, atol=1e-14)
